@@ -16,6 +16,8 @@ def build(env, cfg):
         kw["flow2class"] = lambda f: 0
     elif fmap == "swap":
         kw["flow2class"] = lambda f: 1 - f
+    elif fmap == "mod2":
+        kw["flow2class"] = lambda f: f % 2
     if kind == "SP":
         return SP(env, rate, table, **kw)
     if kind == "WFQ":
